@@ -45,6 +45,53 @@ impl RunObs {
         v.push(self.fin.clone());
         v.join("|")
     }
+    /// The observation of engine `cnf`: as `text`, with long items / long texts digested.
+    pub fn ctext(&self, with_delivered: bool) -> String {
+        let v: Vec<String> = self
+            .items
+            .iter()
+            .map(|(s, d)| if with_delivered { format!("{}@{}", short_item(s), d) } else { short_item(s) })
+            .collect();
+        join_obs(v, &self.fin)
+    }
+}
+
+/// FNV-1a 64 of a text, 16 hex digits (the Lean driver computes the same: `Driver.cnfFnv`).
+pub fn fnv_hex(s: &str) -> String {
+    let mut h: u64 = 0xcbf29ce484222325;
+    for b in s.as_bytes() {
+        h ^= *b as u64;
+        h = h.wrapping_mul(0x100000001b3);
+    }
+    format!("{:016x}", h)
+}
+
+/// An item of more than 512 bytes is shown as its first 16 bytes, `~<len>:<fnv of the item>`.
+pub fn short_item(s: &str) -> String {
+    if s.len() <= 512 {
+        s.to_string()
+    } else {
+        format!("{}~{}:{}", &s[..16], s.len(), fnv_hex(s))
+    }
+}
+
+/// Items (already shortened) and the final outcome, `|`-joined; a text of more than 32768 bytes
+/// is shown as `D<items>:<len>:<fnv of the text>|<final outcome>` (scale cases: observations stay
+/// small, every byte of the full observation still decides equality).
+pub fn join_obs(mut items: Vec<String>, fin: &str) -> String {
+    let n = items.len();
+    items.push(fin.to_string());
+    let t = items.join("|");
+    if t.len() <= 32768 {
+        t
+    } else {
+        format!("D{}:{}:{}|{}", n, t.len(), fnv_hex(&t), fin)
+    }
+}
+
+/// The observation text of a run with the given items and outcome (what a generator expects).
+pub fn obs_text(items: &[String], fin: &str) -> String {
+    join_obs(items.iter().map(|s| short_item(s)).collect(), fin)
 }
 
 fn run_typed<L: Dimacs + 'static>(fmt: &str, cfg: bool, src: SchedSource, chunk: usize) -> RunObs {
@@ -446,7 +493,7 @@ pub fn run_case(line: &str) -> (String, Vec<String>) {
                 }
             }
         }
-        return (obs.text(true), fails);
+        return (obs.ctext(true), fails);
     }
 
     // ---- C01: every schedule gives the same observation
@@ -459,13 +506,13 @@ pub fn run_case(line: &str) -> (String, Vec<String>) {
     if peak > 64 * delivered.len() + (1 << 20) {
         fails.push(format!("C05:parsing {} bytes allocated {} bytes at peak (largest request {})", delivered.len(), peak, largest));
     }
-    let base_text = base.text(false);
+    let base_text = base.ctext(false);
     // results under the other schedules; those that differ from the one-shot run are kept so that
     // the value-level oracles below also see what the cold (byte-wise) scanner paths accepted
     let mut variants: Vec<(String, RunObs)> = vec![];
     for (name, ev, chunk) in scheds.iter().skip(1) {
         let ro = run_parser(&c.fmt, &c.ty, c.cfg, mk(ev.clone()), *chunk);
-        let o = ro.text(false);
+        let o = ro.ctext(false);
         if o != base_text {
             if variants.is_empty() {
                 fails.push(format!("C01:result depends on the read schedule: one-shot={} {}={}", base_text, name, o));
@@ -489,9 +536,9 @@ pub fn run_case(line: &str) -> (String, Vec<String>) {
         if base.fin == "END" {
             fails.push("C04:source failed but the input was reported as completely parsed".into());
         } else if base.fin.starts_with("E:syn") && !(base.fin == free.fin && prefix_ok && free.items.len() == n) {
-            fails.push(format!("C04:syntax error {} reported for data that ends where the source failed (fault-free run: {})", base.fin, free.text(false)));
+            fails.push(format!("C04:syntax error {} reported for data that ends where the source failed (fault-free run: {})", base.fin, free.ctext(false)));
         } else if c.fmt != "log" && !prefix_ok {
-            fails.push(format!("C04:item handed out before the I/O error differs from the fault-free run: {} vs {}", base_text, free.text(false)));
+            fails.push(format!("C04:item handed out before the I/O error differs from the fault-free run: {} vs {}", base_text, free.ctext(false)));
         }
     }
     // ---- C08: error location designates a position inside the input (under every schedule)
@@ -522,9 +569,9 @@ pub fn run_case(line: &str) -> (String, Vec<String>) {
     // ---- C07 / C03: the value that was rendered
     if let Some(x) = &c.expect {
         for (sname, run) in all_runs.iter().skip(1) {
-            if !fault && &run.text(false) != x {
-                fails.push(format!("C07:under schedule {} parsed {} but the rendered value is {}", sname, run.text(false), x));
-                fails.push(format!("C03:under schedule {} parsed {} but the written value is {}", sname, run.text(false), x));
+            if !fault && &run.ctext(false) != x {
+                fails.push(format!("C07:under schedule {} parsed {} but the rendered value is {}", sname, run.ctext(false), x));
+                fails.push(format!("C03:under schedule {} parsed {} but the written value is {}", sname, run.ctext(false), x));
                 break;
             }
         }
@@ -544,7 +591,11 @@ pub fn run_case(line: &str) -> (String, Vec<String>) {
                 let want: Vec<String> = rd.clauses.iter().map(|(t, l, _)| format!("C:{}:{}", t, if l.is_empty() { "-".into() } else { l.join(",") })).collect();
                 let got: Vec<String> = run.items.iter().filter(|(s, _)| s.starts_with("C:")).map(|(s, _)| s.clone()).collect();
                 if want != got {
-                    fails.push(format!("C06:returned clauses {:?} differ from the text {:?}", got, want));
+                    let i = (0..got.len().min(want.len())).find(|&i| got[i] != want[i]).unwrap_or(got.len().min(want.len()));
+                    let show = |v: &Vec<String>| -> String {
+                        if v.len() <= 12 && v.iter().all(|s| s.len() <= 200) { format!("{:?}", v) } else { format!("[{} clauses; clause {}: {}]", v.len(), i, v.get(i).map(|s| short_item(s)).unwrap_or_else(|| "<none>".into())) }
+                    };
+                    fails.push(format!("C06:returned clauses {} differ from the text {}", show(&got), show(&want)));
                 }
                 let maxd = max_dimacs(&c.ty);
                 let mut lit_limit = maxd.clone();
@@ -583,7 +634,7 @@ pub fn run_case(line: &str) -> (String, Vec<String>) {
     if !fault && base.fin == "END" && c.fmt != "log" {
         // ---- C03 converse: parse(write(parse(t))) = parse(t)
         if let Some(bytes) = write_back(&c.fmt, &c.ty, &base) {
-            let again = run_parser(&c.fmt, &c.ty, c.cfg, SchedSource::new(bytes.clone(), false, vec![]), 16384).text(false);
+            let again = run_parser(&c.fmt, &c.ty, c.cfg, SchedSource::new(bytes.clone(), false, vec![]), 16384).ctext(false);
             let norm = |s: &str| s.replace("H:-|", "").replace("H:-", "");
             // a missing header stays missing; otherwise identical
             if norm(&again) != norm(&base_text) {
